@@ -321,7 +321,14 @@ impl<'a> Ev<'a> {
                 }
                 let val = if size(v) > 600 { json!({"k":"big","name":name,"ty":ty_of(v)}) } else { v.clone() };
                 let kind = val.get("k").and_then(|k| k.as_str()).unwrap_or("");
-                let val = if matches!(kind, "atom" | "var" | "closure" | "vecof" | "big" | "unit" | "uninit") {
+                let val = if kind == "vecof" {
+                    // locally built vectors keep their identity through the variable name
+                    let mut v2 = val.clone();
+                    if let Value::Object(m) = &mut v2 {
+                        m.insert("name".into(), Value::String(name.clone()));
+                    }
+                    v2
+                } else if matches!(kind, "atom" | "var" | "closure" | "big" | "unit" | "uninit") {
                     val
                 } else {
                     json!({"k":"var","name":name,"v":val,"ty":ty_of(v)})
